@@ -62,7 +62,25 @@ func enumC15(tier string, shard, nshards int, yield func(C15Case) bool) (bool, s
 	return false, "large trees (300-3000 entries quick, up to 60000 thorough; bf 16 and 4) differing in 1-5 keys"
 }
 
-func countingDiff(w *core.World, oldT, newT *mast.Mast) (loadsIter, loadsLinks int, err error) {
+func countingDiff(w *core.World, oldT, newT *mast.Mast, w2s ...*core.World) (loadsIter, loadsLinks int, err error) {
+	if len(w2s) > 0 && w2s[0] != w {
+		// trees in two stores: count the loads of both
+		w2 := w2s[0]
+		m1, m2 := w.Store.Mark(), w2.Store.Mark()
+		err = core.Safely("DiffIter", func() error {
+			return newT.DiffIter(core.Ctx, oldT, func(a, r bool, k, av, rv interface{}) (bool, error) { return true, nil })
+		})
+		if err != nil {
+			return
+		}
+		loadsIter = len(w.Store.DistinctLoads(m1)) + len(w2.Store.DistinctLoads(m2))
+		m1, m2 = w.Store.Mark(), w2.Store.Mark()
+		err = core.Safely("DiffLinks", func() error {
+			return newT.DiffLinks(core.Ctx, oldT, func(r bool, l interface{}) (bool, error) { return true, nil })
+		})
+		loadsLinks = len(w.Store.DistinctLoads(m1)) + len(w2.Store.DistinctLoads(m2))
+		return
+	}
 	mark := w.Store.Mark()
 	err = core.Safely("DiffIter", func() error {
 		return newT.DiffIter(core.Ctx, oldT, func(a, r bool, k, av, rv interface{}) (bool, error) { return true, nil })
@@ -96,7 +114,7 @@ func symDiff(a, b map[string]*ref.Node) (d, shared int) {
 }
 
 func runC15(c C15Case, o *run.Obs) error {
-	var w *core.World
+	var w, wNew *core.World
 	var oldSR, newSR *core.SavedRoot
 	desc := ""
 	if c.Big > 0 {
@@ -152,11 +170,14 @@ func runC15(c C15Case, o *run.Obs) error {
 			o.Label("aborted:base-failure")
 			return nil
 		}
-		w, oldSR, newSR = p.w, p.oldSR, p.newSR
+		w, wNew, oldSR, newSR = p.w, p.wNew, p.oldSR, p.newSR
 		desc = fmt.Sprintf("[%s] mode=%s old=%s new=%s", c.Pair.Cfg, c.Pair.Mode, w.DescribeModel(oldSR.Model), w.DescribeModel(newSR.Model))
 	}
+	if wNew == nil {
+		wNew = w
+	}
 	nOld, err1 := w.Reachable(oldSR.Root)
-	nNew, err2 := w.Reachable(newSR.Root)
+	nNew, err2 := wNew.Reachable(newSR.Root)
 	if err1 != nil || err2 != nil {
 		o.Label("aborted:root-not-complete(C03)")
 		return nil
@@ -168,12 +189,12 @@ func runC15(c C15Case, o *run.Obs) error {
 		o.Label("aborted:base-failure")
 		return nil
 	}
-	newT, err := w.Load(newSR, nil, nil, false)
+	newT, err := wNew.Load(newSR, nil, nil, false)
 	if err != nil {
 		o.Label("aborted:base-failure")
 		return nil
 	}
-	li, ll, err := countingDiff(w, oldT.M, newT.M)
+	li, ll, err := countingDiff(w, oldT.M, newT.M, wNew)
 	if err != nil {
 		o.Label("aborted:diff-failed(C06/C07)")
 		return nil
@@ -189,9 +210,9 @@ func runC15(c C15Case, o *run.Obs) error {
 		return fmt.Errorf("%s: diffing a version with itself loaded %d / %d nodes, expected none", desc, li, ll)
 	}
 	// the same version opened twice: no loads at all
-	same, err := w.Load(newSR, nil, nil, false)
+	same, err := wNew.Load(newSR, nil, nil, false)
 	if err == nil {
-		si, sl, err := countingDiff(w, same.M, newT.M)
+		si, sl, err := countingDiff(wNew, same.M, newT.M)
 		if err == nil && (si != 0 || sl != 0) {
 			return fmt.Errorf("%s: diffing a version with itself loaded %d (DiffIter) / %d (DiffLinks) nodes, expected none", desc, si, sl)
 		}
